@@ -101,22 +101,57 @@ theorem parseFormals_ok {j : JVal} {fs : List Formal} (h : parseFormals j = .ok 
   exact ⟨o, l, asObj_ok ho, getList_ok hl, h⟩
 
 theorem parseSignature_ok {j : JVal} {ty : Ids} {fs : List Formal} (h : parseSignature j = .ok (ty, fs)) :
-    ∃ o d, j = .obj o ∧ lookup (L "formals") o = some d ∧ parseFormals d = .ok fs := by
+    ∃ o d d0, j = .obj o ∧ lookup (L "formals") o = some d ∧ parseFormals d = .ok fs ∧
+      lookup (L "type_name") o = some d0 ∧ parseScopeName d0 = .ok ty := by
   unfold parseSignature at h
   obtain ⟨o, ho, h⟩ := bind_ok h
   obtain ⟨_, _, h⟩ := bind_ok h
-  obtain ⟨d0, _, h⟩ := bind_ok h
-  obtain ⟨ty', _, h⟩ := bind_ok h
+  obtain ⟨d0, hd0, h⟩ := bind_ok h
+  obtain ⟨ty', hty, h⟩ := bind_ok h
   obtain ⟨d, hd, h⟩ := bind_ok h
   obtain ⟨fs', hfs, h⟩ := bind_ok h
   simp only [pure, Except.pure] at h
   injection h with h
   injection h with h1 h2
-  subst h2
-  exact ⟨o, d, asObj_ok ho, getDict_ok hd, hfs⟩
+  subst h1; subst h2
+  exact ⟨o, d, d0, asObj_ok ho, getDict_ok hd, hfs, getDict_ok hd0, hty⟩
+
+theorem mapM_strOf_single {l : List JVal} {s : Str} (h : l.mapM strOf? = some [s]) : l = [.str s] := by
+  match l, h with
+  | [], h => simp at h
+  | [a], h =>
+    cases a <;> simp [strOf?] at h
+    subst h; rfl
+  | a :: b :: t, h =>
+    exfalso
+    simp only [List.mapM_cons, bind, Option.bind] at h
+    cases ha : strOf? a <;> simp [ha] at h
+    cases hb : strOf? b <;> simp [hb] at h
+    cases ht : List.mapM strOf? t <;> simp [ht, pure] at h
+
+theorem parseScopeName_single {j : JVal} {s : Str} (h : parseScopeName j = .ok [s]) :
+    ∃ o, j = .obj o ∧ lookup (L "ids") o = some (.arr [.str s]) := by
+  unfold parseScopeName at h
+  obtain ⟨o, ho, h⟩ := bind_ok h
+  obtain ⟨_, _, h⟩ := bind_ok h
+  obtain ⟨l, hl, h⟩ := bind_ok h
+  split at h
+  · simp [jerr] at h
+  · unfold idsOfJson at h
+    cases hm : l.mapM strOf? with
+    | none => simp [hm] at h
+    | some strs =>
+      simp only [hm, mkIds] at h
+      split at h
+      · injection h with h
+        subst h
+        have := mapM_strOf_single hm
+        subst this
+        exact ⟨o, asObj_ok ho, getList_ok hl⟩
+      · cases h
 
 theorem parseEvent_ok {j : JVal} {e : Event} (h : parseEvent j = .ok e) :
-    ∃ o d ty s, j = .obj o ∧ lookup (L "signature") o = some d ∧ parseSignature d = .ok (ty, e.formals) ∧
+    ∃ o d s, j = .obj o ∧ lookup (L "signature") o = some d ∧ parseSignature d = .ok (e.replyType, e.formals) ∧
       lookup (L "direction") o = some (.str s) ∧ parseEventDirection s = .ok e.dir := by
   unfold parseEvent at h
   obtain ⟨o, ho, h⟩ := bind_ok h
@@ -126,7 +161,7 @@ theorem parseEvent_ok {j : JVal} {e : Event} (h : parseEvent j = .ok e) :
   obtain ⟨⟨ty, fs⟩, hsig, h⟩ := bind_ok h
   obtain ⟨s, hs, h⟩ := bind_ok h
   obtain ⟨dir, hdir, h⟩ := bind_ok h
-  refine ⟨o, d, ty, s, asObj_ok ho, getDict_ok hd, ?_, getStr_ok hs, ?_⟩
+  refine ⟨o, d, s, asObj_ok ho, getDict_ok hd, ?_, getStr_ok hs, ?_⟩
   · split at h
     · simp [jerr] at h
     · split at h
@@ -140,12 +175,13 @@ theorem parseEvent_ok {j : JVal} {e : Event} (h : parseEvent j = .ok e) :
       · simp only [pure, Except.pure] at h
         injection h with h; subst h; exact hdir
 
-/-- **the event clause on the input**: an event written "out" with a formal written "out" never parses -/
+/-- **the event clause on the input**: an event written "out" with a formal written "out", or with a written reply
+    type other than `void`, never parses -/
 theorem bad_event_refused (j : JVal) (hb : Spec.jBadEvent j = true) : ∀ e, parseEvent j ≠ .ok e := by
   intro e h
-  obtain ⟨o, d, ty, s, hj, hsig, hps, hdir, hpd⟩ := parseEvent_ok h
+  obtain ⟨o, d, s, hj, hsig, hps, hdir, hpd⟩ := parseEvent_ok h
   subst hj
-  simp only [Spec.jBadEvent, Bool.and_eq_true] at hb
+  simp only [Spec.jBadEvent, Bool.and_eq_true, Bool.or_eq_true] at hb
   obtain ⟨hb1, hb2⟩ := hb
   -- the event's direction
   simp only [Spec.jDirIsOut, hdir] at hb1
@@ -154,16 +190,23 @@ theorem bad_event_refused (j : JVal) (hb : Spec.jBadEvent j = true) : ∀ e, par
   have hed : e.dir = .out := by
     simp [parseEventDirection] at hpd
     exact hpd.symm
-  -- the offending formal
-  obtain ⟨sg, d', hd, hfm, hpf⟩ := parseSignature_ok hps
+  obtain ⟨sg, d', d0, hd, hfm, hpf, htn, hpt⟩ := parseSignature_ok hps
   subst hd
-  obtain ⟨fm, l, hd', hel, hmap⟩ := parseFormals_ok hpf
-  subst hd'
-  simp only [Spec.jFormalsOf, hsig, hfm, hel, List.any_eq_true] at hb2
-  obtain ⟨a, ha, hout⟩ := hb2
-  obtain ⟨f, hf, hpa⟩ := mapM_ok_fwd _ _ _ hmap a ha
-  have := parseFormal_dir_out a f hpa hout
-  exact (parse_event_out_ok _ e h hed).2 f hf this
+  rcases hb2 with hb2 | hb2
+  · -- the offending formal
+    obtain ⟨fm, l, hd', hel, hmap⟩ := parseFormals_ok hpf
+    subst hd'
+    simp only [Spec.jFormalsOf, hsig, hfm, hel, List.any_eq_true] at hb2
+    obtain ⟨a, ha, hout⟩ := hb2
+    obtain ⟨f, hf, hpa⟩ := mapM_ok_fwd _ _ _ hmap a ha
+    have := parseFormal_dir_out a f hpa hout
+    exact (parse_event_out_ok _ e h hed).2 f hf this
+  · -- the reply type
+    have hvoid := (parse_event_out_ok _ e h hed).1
+    rw [hvoid] at hpt
+    obtain ⟨tn, hd0, hids⟩ := parseScopeName_single hpt
+    subst hd0
+    simp [Spec.jReplyNotVoid, hsig, htn, hids] at hb2
 
 theorem parseEvents_ok {j : JVal} {es : List Event} (h : parseEvents j = .ok es) :
     ∃ o l, j = .obj o ∧ lookup (L "elements") o = some (.arr l) ∧ l.mapM parseEvent = .ok es := by
@@ -318,5 +361,11 @@ example : Spec.jBadDoc 1 (.obj [(L "<class>", .str (L "root")), (L "elements", .
     .obj [(L "<class>", .str (L "interface")), (L "events", .obj [(L "elements", .arr [
       .obj [(L "direction", .str (L "out")), (L "signature", .obj [(L "formals", .obj [(L "elements", .arr [
         .obj [(L "direction", .str (L "out"))]])])])]])])]])]) = true := by decide
+
+/-- … and one with `out bool E()` -/
+example : Spec.jBadDoc 1 (.obj [(L "<class>", .str (L "root")), (L "elements", .arr [
+    .obj [(L "<class>", .str (L "interface")), (L "events", .obj [(L "elements", .arr [
+      .obj [(L "direction", .str (L "out")), (L "signature", .obj [(L "type_name", .obj [(L "ids", .arr [
+        .str (L "bool")])])])]])])]])]) = true := by decide
 
 end C15
